@@ -13,11 +13,12 @@ func init() {
 			"with 0-3 +K@ hints (5-character cluster, known gateway, unknown gateway) mixed with other hints; repeated with the services listed in reverse order, after removing/adding one service, and a write of k replicas followed by a read. " +
 			"Stream small-writes: 1-3 writable services with Want_replicas >= their number (PutB/PutHB; proxy/mixed/disk types through LoadKeepServicesFromJSON, SetServiceRoots, lazily discovered KeepServiceURIs; all 403, all 500 with retry rounds, all 200 rep 1, all 200 rep 2 so that the client stops early): every round of one-at-a-time uploads must be a prefix of the reference order and of the same client's read order, identically for three independently built clients. " +
 			"Stream lazy: a fresh, not yet discovered KeepClient per case (New() or struct literal; services from a stub API's keep_services/accessible list - in-process transport or httptest server - or from KeepServiceURIs) looks up a hinted locator (Get/Ask) as its very first operation, then again: hints first, reference order after, same sequence both times. " +
+			"Stream reload: ONE long-lived KeepClient (literal, New(), MakeKeepClient) is given a sequence of 2-5 service lists - LoadKeepServicesFromJSON / SetServiceRoots in any mix, or discovery against a stub keep_services/accessible API whose answer changes followed by kc.RefreshServiceDiscovery() / RefreshServiceDiscovery(), sometimes switched to an explicit list later - each derived from the one before: all/some services re-registered (same endpoint, new uuid), uuids swapped or rotated between endpoints, subset, superset, type flips, read-only flips, endpoints moved (same uuids), same list in another order, same list again, wholly new list; after EVERY load a hinted read (hints: uuid of the current list, uuid only a former list had = unusable, cluster, unknown), an un-hinted read and a refused write are judged against the reference order of the list current at that moment (url -> uuid as registered in that list: permutation, non-increasing weight, hints first, no request outside the current set, write order = read order restricted to writable) and compared with a client built from the current list only. " +
 			"Stream read-retries: reads (Get/Ask) with Retries 1-3 over 8-16 (sometimes 3-7) services plus cluster / separate-gateway hints, most hosts failing transiently (connection error, 408, 429, 5xx) round after round until one answers or all give up; the probe sequence is split into rounds and EVERY round is judged: hints before un-hinted services, un-hinted services in non-increasing reference weight, each retry round a subsequence of the previous round, nobody asked again who did not fail transiently. " +
 			"Balancer part (services/keep-balance): servers that the real balanceBlock sends Pulls to (one replica on the last server, desired k=1..n-1) and does not send Trashes to (old replica everywhere, desired k), also after a membership change and with the services inserted in another order. " +
 			"Stream concurrent (same package): the REAL concurrent path - a Balancer whose BlockStateMap holds 1200-3000 blocks (one replica on the last server, or an old replica everywhere; desired k 1-4) is run through ComputeChangeSets with GOMAXPROCS set to 4-16 in the harness, every service's ChangeSet is read back and the Pull/Trash targets of every block are judged against the reference top-k and the client's observed probe order. " +
 			"Reference = services by descending MD5hex(hash + last 15 characters of the 27-character uuid) computed in the harness (validated against the 4 published probe-order vectors); for other uuid lengths only permutation / determinism / stability / client-vs-balancer agreement are judged; equal weights accept either order. " +
-			"non-trivial = more than one service or at least one hint; distinct = distinct (size class of the set, uuid class, ties, read-only present, load mode, read call, hint kinds, change kind | balancer: mounts, device ids)",
+			"non-trivial = more than one service or at least one hint; distinct = distinct (size class of the set, uuid class, ties, read-only present, load mode, read call, hint kinds, change kind | reload: mode, constructor, uuid class, read call, number of loads, kind and loader of the last change, size class | balancer: mounts, device ids)",
 		Assume: []string{
 			"sdk/python/arvados/keep.py is not exercised (the Python SDK cannot be imported in this sandbox)",
 			"the order among several usable hints is recorded but not judged (the statement only requires hints to be tried before the rendezvous order)",
